@@ -149,6 +149,12 @@ class NatSpec(object):
     def mask_positions(self, mask):
         return np.nonzero(np.asarray(mask))[0]
 
+    def isin(self, a, b):
+        return np.isin(np.asarray(a), np.asarray(b))
+
+    def sort_rank(self, arr):
+        return np.argsort(np.argsort(np.asarray(arr), kind="stable"), kind="stable")
+
     def calls(self, contract_name):
         return []
 
@@ -168,6 +174,9 @@ class NatSpec(object):
 
     def kind(self, arr):
         return np.asarray(arr).dtype.kind
+
+    def isnan(self, x):
+        return isinstance(x, float) and x != x
 
     def snapshot(self, arr):
         return np.array(arr, copy=True)
